@@ -709,9 +709,11 @@ class EvolutionSuperOperator(SuperOperator, TimeDependent, Saveable):
         if time is not None:
             ti, dt = self.time.locate(time)
 
-            return SuperOperator(data=self.data[ti, :, :, :, :])
+            # the returned superoperator is basis managed on its own;
+            # it must not share memory with this object
+            return SuperOperator(data=self.data[ti, :, :, :, :].copy())
         else:
-            return SuperOperator(data=self.data)
+            return SuperOperator(data=self.data.copy())
 
           
     def apply(self, time, target, copy=True):
